@@ -2,7 +2,7 @@
 (* Idiom E for property C25: what the real ppci code answered about a graph *)
 (* is judged against the path-based definitions of Dom.tla.                 *)
 (*                                                                           *)
-(* TRACE_FILE is a JSON array of graph records                               *)
+(* The input is a JSON array of graph records                                 *)
 (*   [n |-> number of nodes (nodes are 1..n), edges |-> pair list,           *)
 (*    entry |-> node, exits |-> the exit nodes used by the observations,     *)
 (*    obs |-> << observation, ... >>]                                        *)
@@ -34,29 +34,36 @@
 (* reflexive and the non-reflexive reading of "reach" say TRUE).            *)
 EXTENDS Dom, Integers, Json, IOUtils, TLC
 
-Recs == JsonDeserialize(IOEnv.TRACE_FILE)
+\* The records are dealt round-robin over NChunks files <TRACE_FILE><chunk>.json, so
+\* that the workers parse and evaluate them in parallel.
 NChunks == 64
+ChunkFile(ch) == IOEnv.TRACE_FILE \o ToString(ch) \o ".json"
 Rng(s)  == {s[k] : k \in 1..Len(s)}
 Pairs(s) == {<<s[k] \div 1000, s[k] % 1000>> : k \in 1..Len(s)}
 NoDup(s) == \A a \in 1..Len(s) : \A b \in 1..Len(s) : s[a] = s[b] => a = b
 G(r)    == Pairs(r.edges)
 Nodes(r) == 1..r.n
 
-\* chunk, i, c select the record and the observation under evaluation; dm and pm hold
-\* the definitions for the selected graph, evaluated once when the record is picked:
+\* chunk, i select the record (i-th of its chunk), rec is the record itself and c the
+\* observation under evaluation; dm and pm hold the definitions for the graph of rec,
+\* evaluated once when the record is picked:
 \*   dm = dominance map w.r.t. the entry, pm[x] = post-dominance map w.r.t. exit x
-VARIABLES chunk, i, c, dm, pm
-vars == <<chunk, i, c, dm, pm>>
+VARIABLES chunk, i, c, rec, dm, pm
+vars == <<chunk, i, c, rec, dm, pm>>
 Empty == [x \in {} |-> 0]
-Init == chunk = 0 /\ i = 0 /\ c = 0 /\ dm = Empty /\ pm = Empty
-PickChunk == chunk = 0 /\ chunk' \in 1..NChunks /\ UNCHANGED <<i, c, dm, pm>>
+Init == chunk = 0 /\ i = 0 /\ c = 0 /\ rec = Empty /\ dm = Empty /\ pm = Empty
+PickChunk == chunk = 0 /\ chunk' \in 1..NChunks /\ UNCHANGED <<i, c, rec, dm, pm>>
 PickRec == /\ chunk > 0 /\ i = 0 /\ UNCHANGED <<chunk, c>>
-           /\ i' \in {k \in 1..Len(Recs) : k % NChunks = chunk - 1}
-           /\ dm' = DomMapF(G(Recs[i']), Recs[i'].entry)
-           /\ pm' = [x \in Rng(Recs[i'].exits) |-> PDomMapF(G(Recs[i']), x)]
-PickClause == /\ i > 0 /\ c = 0 /\ UNCHANGED <<chunk, i, dm, pm>>
-              /\ c' \in 1..Len(Recs[i].obs)
+           /\ \E F \in {JsonDeserialize(ChunkFile(chunk))} : \E k \in 1..Len(F) :
+                 /\ i' = k
+                 /\ rec' = F[k]
+                 /\ dm' = DomMapF(G(F[k]), F[k].entry)
+                 /\ pm' = [x \in Rng(F[k].exits) |-> PDomMapF(G(F[k]), x)]
+PickClause == /\ i > 0 /\ c = 0 /\ UNCHANGED <<chunk, i, rec, dm, pm>>
+              /\ c' \in 1..Len(rec.obs)
 Next == PickChunk \/ PickRec \/ PickClause
+\* what an error trace shows (the record itself is known to the harness)
+Shown == [chunk |-> chunk, i |-> i, c |-> c]
 
 \* ---- the clauses ---------------------------------------------------------
 IdomListOK(DM, o, n) ==
@@ -125,18 +132,18 @@ ReachAllowed(r, o) ==
                            ELSE a \in RP => <<a, b>> \in T
 
 \* ---- one invariant per clause (a state carries exactly one observation) ---
-Obs == Recs[i].obs[c]
+Obs == rec.obs[c]
 Is(cl) == c > 0 /\ Obs.cl = cl
-IdomOK      == Is("idom")      => IdomAllowed(Recs[i], Obs)
-QueriesOK   == Is("queries")   => QueriesAllowed(Recs[i], Obs)
-IntervalsOK == Is("intervals") => IntervalsAllowed(Recs[i], Obs)
-TreeOK      == Is("tree")      => TreeAllowed(Recs[i], Obs)
-DFOK        == Is("df")        => DFAllowed(Recs[i], Obs)
-CfgInfoOK   == Is("cfginfo")   => CfgInfoAllowed(Recs[i], Obs)
-FpDomOK     == Is("fpdom")     => FpDomAllowed(Recs[i], Obs)
-PDomOK      == Is("pdom")      => PDomAllowed(Recs[i], Obs)
-IPDomOK     == Is("ipdom")     => IPDomAllowed(Recs[i], Obs)
-ReachOK     == Is("reach")     => ReachAllowed(Recs[i], Obs)
+IdomOK      == Is("idom")      => IdomAllowed(rec, Obs)
+QueriesOK   == Is("queries")   => QueriesAllowed(rec, Obs)
+IntervalsOK == Is("intervals") => IntervalsAllowed(rec, Obs)
+TreeOK      == Is("tree")      => TreeAllowed(rec, Obs)
+DFOK        == Is("df")        => DFAllowed(rec, Obs)
+CfgInfoOK   == Is("cfginfo")   => CfgInfoAllowed(rec, Obs)
+FpDomOK     == Is("fpdom")     => FpDomAllowed(rec, Obs)
+PDomOK      == Is("pdom")      => PDomAllowed(rec, Obs)
+IPDomOK     == Is("ipdom")     => IPDomAllowed(rec, Obs)
+ReachOK     == Is("reach")     => ReachAllowed(rec, Obs)
 KnownClause == c > 0 => Obs.cl \in {"idom", "queries", "intervals", "tree", "df", "cfginfo",
                                     "fpdom", "pdom", "ipdom", "reach"}
 =============================================================================
